@@ -11,13 +11,19 @@ Driver handler for C17 (case formats: see harness/run/c17.go).
               (kind C = concurrent map: `Derive.concMapLifecycle`, guard ids >= `guardBase` are not probes)
       spec  : every stream opens/closes exactly the ids of its own derivation path (computed by following the
               parent pointers, no heap) and delivers its path's elements (sorted below a concurrent map, counted
-              below a Limit/Skip under a concurrent map)
+              below a Limit/Skip under a concurrent map); an overlapping materialisation (`zip` / `nest` parts) of
+              several stream values opens and closes the multiset union of their paths
+              (model: `Derive.materialiseMany` on the final heap; theorem `C17_materialise_overlapping`)
 
   Q <lay> n= w= caps=k:m,... <mode> | P | Q | post
       model : `RowAlias.stepR` operations on a heap built with the given spare capacities / layout; a stage that hands
               rows (or the metadata slice) on reuses the REGISTER; the whole case is run twice, all results are read at
-              the end (u = no pre-existing array changed, x = the source rows read as at the start, y = second run = first)
-      spec  : a table-level evaluator (lists only), the same for every capacity, and the bits u, x, y must be 1
+              the end (u = no pre-existing array changed, x = the source rows read as at the start, y = second run = first,
+              k = the stage objects are unchanged: stages are immutable data of the row program, always 1)
+      spec  : a table-level evaluator (lists only), the same for every capacity, and the bits u, x, y, k must be 1.
+              The harness makes every stage object ONCE per distinct construction arguments and uses that object for
+              all occurrences / pipelines / executions; the model has value semantics (`C17_stage_sharing_irrelevant`),
+              so any state a stage object keeps between executions shows as a spec failure.
 
   M <seq|join> src=<cm>,<cm>,... | P | Q          (custom-metadata MAPS; planning time)
       model : `MetaMap.stepM` operations on a heap of map objects holding the caller's maps (source fields',
@@ -36,10 +42,16 @@ def stripPrefix? (s p : String) : Option String :=
 
 /-! ### D cases -/
 
+/-- one observation part after the solo pass: every stream value materialised in the given order on one forest, or
+    groups of stream values materialised at overlapping times (zipped / nested) -/
+inductive DPart
+  | all (ord : List Nat)
+  | overlap (kind : String) (groups : List (List Nat))
+
 structure DCase where
   root : Char
   ds : List (Nat × Char)
-  ords : List (List Nat)
+  ords : List DPart
 
 def parseDeriv (t : String) : Option (Nat × Char) :=
   let cs := t.toList
@@ -52,6 +64,13 @@ def parseDeriv (t : String) : Option (Nat × Char) :=
 def parseDerivs (s : String) : Option (List (Nat × Char)) :=
   if s == "-" then some [] else (s.splitOn ",").mapM parseDeriv
 
+def parsePart (t : String) : Option DPart :=
+  match words t with
+  | "zip" :: groups => (groups.mapM parseNatList).map (DPart.overlap "zip")
+  | "nest" :: groups => (groups.mapM parseNatList).map (DPart.overlap "nest")
+  | [ord] => (parseNatList ord).map DPart.all
+  | _ => none
+
 def parseD (text : String) : Option DCase :=
   match text.splitOn " | " with
   | [head, ordText] =>
@@ -59,7 +78,7 @@ def parseD (text : String) : Option DCase :=
     | [r, d] => do
       let root ← (match r.toList with | ['r', c] => some c | _ => none)
       let ds ← parseDerivs d
-      let ords ← ((ordText.splitOn " ; ").map String.trimAscii |>.map (·.toString) |>.filter (· != "")).mapM parseNatList
+      let ords ← ((ordText.splitOn " ; ").map String.trimAscii |>.map (·.toString) |>.filter (· != "")).mapM parsePart
       pure { root := root, ds := ds, ords := ords }
     | _ => none
   | _ => none
@@ -119,13 +138,32 @@ def fmtData (mode : Nat) (l : List Int) : String :=
   | 2 => s!"#{l.length}"
   | _ => "?"
 
-def fmtD (c : DCase) (lc : Nat → List Nat) (data : Nat → List Int) : String :=
+def sortNats (l : List Nat) : List Nat := (l.toArray.qsort (· < ·)).toList
+
+/-- does a concurrent map lie on the path of stream `i`?  (such streams are never materialised at overlapping times) -/
+def concOnPath (c : DCase) : Nat → Nat → Bool
+  | 0, _ => false
+  | fuel + 1, i =>
+    if i == 0 then false else
+    match c.ds[i - 1]? with
+    | none => false
+    | some (p, k) => k == 'C' || concOnPath c fuel p
+
+/-- `many` = the ids opened / closed by an overlapping materialisation of the listed stream values, as multisets -/
+def fmtD (c : DCase) (lc : Nat → List Nat) (many : List Nat → List Nat × List Nat) (data : Nat → List Int) : String :=
   let n := c.ds.length + 1
   let solo := (List.range n).map (fun i =>
     s!"{i}:{fmtNatList (lc i)}/{fmtNatList (lc i)}/{fmtData (dataMode c n i) (data i)}")
-  let alls := c.ords.map (fun ord =>
-    " ; all " ++ " ".intercalate (ord.map (fun i => s!"{i}:{fmtNatList (lc i)}/{fmtNatList (lc i)}")))
-  "solo " ++ " ".intercalate solo ++ String.join alls
+  let parts := c.ords.map (fun part =>
+    match part with
+    | .all ord => " ; all " ++ " ".intercalate (ord.map (fun i => s!"{i}:{fmtNatList (lc i)}/{fmtNatList (lc i)}"))
+    | .overlap kind groups =>
+      s!" ; {kind} " ++ " ".intercalate (groups.map (fun g =>
+        if g.any (concOnPath c n) then s!"{fmtNatList g}:skip"
+        else
+          let r := many g
+          s!"{fmtNatList g}:{fmtNatList (sortNats r.1)}/{fmtNatList (sortNats r.2)}")))
+  "solo " ++ " ".intercalate solo ++ String.join parts
 
 /-- list-level spec: follow the parent pointers (fuel = index bound). -/
 def pathIds (c : DCase) : Nat → Nat → List Nat
@@ -160,10 +198,21 @@ def handleD (text obs : String) : String × Bool × String :=
     let st := runModelD c
     let model := fmtD c
       (fun i => match st.streams[i]? with | some s => probesOnly (materialise st.heap s).1 | none => [])
+      (fun g =>
+        -- the model's overlapping materialisation of the listed stream VALUES, read through the final heap
+        let r := materialiseMany st.heap (g.filterMap (fun i => st.streams[i]?))
+        (probesOnly r.1, probesOnly r.2))
       (fun i => match st.streams[i]? with | some s => dataOf srcData s.prov | none => [])
     let n := c.ds.length + 1
-    let want := fmtD c (pathIds c n) (pathData c n)
-    (model, obs == want, if obs == want then "" else s!"a stream does not run its own derivation path; want {want}")
+    -- spec: the multiset union of the listed streams' own derivation paths (parent pointers, no heap)
+    let want := fmtD c (pathIds c n) (fun g => (g.flatMap (pathIds c n), g.flatMap (pathIds c n))) (pathData c n)
+    -- the parts before the first overlapping materialisation (solo / all passes)
+    let seqPart := fun (t : String) => (((t.splitOn " ; zip").headD "").splitOn " ; nest").headD ""
+    let why :=
+      if seqPart obs == seqPart want then
+        "stream values materialised at OVERLAPPING times (zip / nest) do not open and close the multiset union of their own derivation paths (every stream alone does): state of a lifecycle / lock element is shared between the streams derived from it; "
+      else "a stream does not run its own derivation path; "
+    (model, obs == want, if obs == want then "" else s!"{why}want {want}")
 
 /-! ### Q cases -/
 
@@ -176,6 +225,7 @@ inductive CVal
   | plus (a b : CVal)
   | sel (a b t f : CVal)
   | cast (a : CVal)
+  | red (op : Char) (idxs : Option (List Nat))   -- `u<s|a|m|x|c>(<idx>+..)` / `u<op>(*)`: ReduceFieldValue
 
 structure CStage where
   kind : Char
@@ -192,11 +242,23 @@ def expectC (c : Char) : List Char → Option (List Char)
   | x :: r => if x == c then some r else none
   | [] => none
 
+def parseIdxListC (cs : List Char) : Option (List Nat) :=
+  ((String.ofList cs).splitOn "+").mapM String.toNat?
+
 def parseCValC : Nat → List Char → Option (CVal × List Char)
   | 0, _ => none
   | _ + 1, 'c' :: '-' :: rest => (takeNat rest).map (fun nr => (CVal.const (-(nr.1 : Int)), nr.2))
   | _ + 1, 'c' :: rest => (takeNat rest).map (fun nr => (CVal.const (nr.1 : Int), nr.2))
   | _ + 1, 'r' :: rest => (takeNat rest).map (fun nr => (CVal.ref nr.1, nr.2))
+  | _ + 1, 'u' :: op :: '(' :: '*' :: ')' :: rest =>
+    if "samxc".toList.contains op then some (CVal.red op none, rest) else none
+  | _ + 1, 'u' :: op :: '(' :: rest =>
+    if "samxc".toList.contains op then
+      let body := rest.takeWhile (· != ')')
+      match rest.dropWhile (· != ')') with
+      | ')' :: r => (parseIdxListC body).map (fun is => (CVal.red op (some is), r))
+      | _ => none
+    else none
   | f + 1, 'n' :: '(' :: rest => do
     let (a, r) ← parseCValC f rest
     let r ← expectC ',' r
@@ -266,7 +328,7 @@ def parseStage (t : String) : Option CStage :=
     let (i, r) ← takeNat rest
     match r with
     | [] => pure { kind := 'B', idx := [i] }
-    | [c] => if c == 'd' || c == 'r' then pure { kind := 'B', idx := [i], sub := c } else none
+    | [c] => if c == 'd' || c == 'r' || c == 'o' then pure { kind := 'B', idx := [i], sub := c } else none
     | c :: r2 =>
       if c == 'a' || c == 'f' || c == 'l' then
         match takeNat r2 with
@@ -353,6 +415,12 @@ def toValFn : CVal → ValFn
   | .plus a b => .bin .add (toValFn a) (toValFn b)
   | .sel a b t f => .selGt (toValFn a) (toValFn b) (toValFn t) (toValFn f)
   | .cast a => .cast (toValFn a)
+  | .red op idxs =>
+    let rop : RedOp := if op == 's' then .sum else if op == 'a' then .avg else if op == 'm' then .min
+      else if op == 'x' then .max else .count
+    match idxs with
+    | some is => .red rop is
+    | none => .redAll rop
 
 def layNil (lay : String) : Bool := lay.endsWith "n"
 def layPack (lay : String) : Bool := lay.startsWith "pack"
@@ -480,7 +548,8 @@ def specStageT (tag : String) (si : Nat) (t : Tbl) (st : CStage) : Tbl :=
       else if st.sub == 'r' then pairsT col rateVal
       else if st.sub == 'a' || st.sub == 'f' || st.sub == 'l' then alignT st.per st.sub col
       else col
-    { urns := [t.urns.getD i0 Val.nil], rows := rows }
+    -- `o`: datasource-level OverrideFieldMetadata between the bridges: new urn, data handed through
+    { urns := [if st.sub == 'o' then newUrn else t.urns.getD i0 Val.nil], rows := rows }
   | 'G', _ => { t with rows := alignT st.per st.sub t.rows }
   | _, _ => t
 
@@ -505,6 +574,17 @@ def specJoinT (kind : Char) (sides : List Tbl) : Tbl :=
 
 def isJoin (mode : String) : Bool := mode.startsWith "join"
 
+/-- modes with a shared tag (`seqs`, `alts`, `tj<I|L|F><s|a>s`, `tk…s`): Q's new urns carry P's tag; in the harness equal
+    stages are then the same Go objects in both pipelines.  Stages are values here, so only the urn names change. -/
+def sharedMode (mode : String) : Bool :=
+  mode == "seqs" || mode == "alts" ||
+    (mode.length == 5 && (mode.startsWith "tj" || mode.startsWith "tk") && mode.endsWith "s")
+
+def baseMode (mode : String) : String :=
+  if sharedMode mode then String.ofList mode.toList.dropLast else mode
+
+def qTag (mode : String) : String := if sharedMode mode then "p" else "q"
+
 /-- the join letter of a mode: joinI, joinsharedI, j3L, tjFs, tkIa … -/
 def joinLetter (mode : String) : Char :=
   let cs := mode.toList
@@ -522,17 +602,19 @@ def specOuts (c : QCase) : Option (List Tbl) :=
   let t := srcTbl c 100
   let v := srcTbl c 200
   let k := joinLetter c.mode
-  if c.mode == "seq" || c.mode == "alt" then some [specChainT "p" s c.p, specChainT "q" s c.q]
-  else if isJoin c.mode then
+  let tq := qTag c.mode
+  let mode := baseMode c.mode
+  if mode == "seq" || mode == "alt" then some [specChainT "p" s c.p, specChainT tq s c.q]
+  else if isJoin mode then
     some [specChainT "j" (specJoinT k [specChainT "p" s c.p, specChainT "q" s c.q]) c.post]
-  else if c.mode.startsWith "j3" then
+  else if mode.startsWith "j3" then
     some [specChainT "j" (specJoinT k [specChainT "p" s c.p, t, specChainT "q" v c.q]) c.post]
-  else if c.mode.startsWith "tj" then
+  else if mode.startsWith "tj" then
     some [specChainT "j" (specJoinT k [s, specChainT "p" t c.p]) c.post,
-          specChainT "j" (specJoinT k [s, specChainT "q" t c.q]) c.post]
-  else if c.mode.startsWith "tk" then
+          specChainT "j" (specJoinT k [s, specChainT tq t c.q]) c.post]
+  else if mode.startsWith "tk" then
     some [specChainT "j" (specJoinT k [specChainT "p" t c.p, s]) c.post,
-          specChainT "j" (specJoinT k [specChainT "q" t c.q, s]) c.post]
+          specChainT "j" (specJoinT k [specChainT tq t c.q, s]) c.post]
   else none
 
 /-- which memory every row of a result is: `c<i>` the caller's row i, `f` a row of its own, `d<j>` the same memory as
@@ -550,7 +632,7 @@ def specPayload (c : QCase) : String :=
   | none => "bad-case"
   | some outs =>
     fmtOuts (outs.map (fun t => (t.rows.map (fun r => (r.ts, r.vals)),
-      t.rows.map (fun r => match r.orig with | some i => s!"c{i}" | none => "f"), t.urns))) ++ " u=1 x=1 y=1"
+      t.rows.map (fun r => match r.orig with | some i => s!"c{i}" | none => "f"), t.urns))) ++ " u=1 x=1 y=1 k=1"
 
 /-! #### the heap model -/
 
@@ -632,7 +714,7 @@ def stageH (tag : String) (si : Nat) (s : RState) (t : HTbl) (st : CStage) : RSt
     (s, { t with rows := t.rows.filter (fun r =>
       valGt ((toValFn a).eval (view s.heap (s.reg r.2))) ((toValFn b).eval (view s.heap (s.reg r.2)))) })
   | 'B', _ =>
-    let m := emit s (.singleRow t.md (.ref i0))
+    let m := emit s (.singleRow t.md (if st.sub == 'o' then .const newUrn else .ref i0))
     let w := t.width
     let rs :=
       if st.sub == 'd' then pairsH m.1 t.rows (fun _ _ => [ValFn.bin .sub (.ref (w + i0)) (.ref i0)])
@@ -709,22 +791,24 @@ def runOutsH (c : QCase) (s0 : RState) : Option (RState × List HTbl) :=
   let t := srcH c 1
   let v := srcH c 2
   let k := joinLetter c.mode
-  if c.mode == "seq" || c.mode == "alt" then
+  let tagQ := qTag c.mode
+  let mode := baseMode c.mode
+  if mode == "seq" || mode == "alt" then
     let (s1, tp) := chainH "p" s0 s c.p
-    let (s2, tq) := chainH "q" s1 s c.q
+    let (s2, tq) := chainH tagQ s1 s c.q
     some (s2, [tp, tq])
-  else if isJoin c.mode || c.mode.startsWith "j3" then
+  else if isJoin mode || mode.startsWith "j3" then
     let (s1, tp) := chainH "p" s0 s c.p
-    let (s2, tq) := chainH "q" s1 (if isJoin c.mode then s else v) c.q
-    let (s3, tj0) := joinH k s2 (if isJoin c.mode then [tp, tq] else [tp, t, tq])
+    let (s2, tq) := chainH "q" s1 (if isJoin mode then s else v) c.q
+    let (s3, tj0) := joinH k s2 (if isJoin mode then [tp, tq] else [tp, t, tq])
     let (s4, tj) := chainH "j" s3 tj0 c.post
     some (s4, [tj])
-  else if c.mode.startsWith "tj" || c.mode.startsWith "tk" then
-    let first := c.mode.startsWith "tj"
+  else if mode.startsWith "tj" || mode.startsWith "tk" then
+    let first := mode.startsWith "tj"
     let (s1, tp) := chainH "p" s0 t c.p
     let (s2, j10) := joinH k s1 (if first then [s, tp] else [tp, s])
     let (s3, j1) := chainH "j" s2 j10 c.post
-    let (s4, tq) := chainH "q" s3 t c.q
+    let (s4, tq) := chainH tagQ s3 t c.q
     let (s5, j20) := joinH k s4 (if first then [s, tq] else [tq, s])
     let (s6, j2) := chainH "j" s5 j20 c.post
     some (s6, [j1, j2])
@@ -758,7 +842,8 @@ def modelPayload (c : QCase) (k m : Nat) : String :=
       let x := (List.range c.n).all (fun i => valOf s2 i == srcRow (layNil c.lay) c.w i)
       let first := fmtOutsH s2 c.n outs1
       let y := fmtOutsH s2 c.n outs2 == first
-      s!"{first} u={boolStr u} x={boolStr x} y={boolStr y}"
+      -- k: the stages are immutable data of the program (no operation of the model can reach them)
+      s!"{first} u={boolStr u} x={boolStr x} y={boolStr y} k=1"
 
 /-- `want` says which memory every row is; a row the model hands on (`c<i>`) may also be observed as a row of its own
     (`f`: copying is never an aliasing problem — it is reported as a model/code mismatch, not as a failure of the
@@ -796,9 +881,11 @@ def handleQ (text obs : String) : String × Bool × String :=
       let mutated := (obs.splitOn "u=0").length > 1
       let reexec := (obs.splitOn "x=0").length > 1
       let rerun := (obs.splitOn "y=0").length > 1
+      let ctor := (obs.splitOn "k=0").length > 1
       let why := (if mutated then "caller data modified; " else "") ++
         (if reexec then "the static source executed again does not return the original rows; " else "") ++
         (if rerun then "the same query executed again returns something else; " else "") ++
+        (if ctor then "executing the query changed construction-time data of a stage object (urn set / selected-field list / override map / filter list) that is shared with every other use of it; " else "") ++
         (if someOk then "result depends on the spare capacity; " else "") ++
         (if aliased then "a row made by the library shares its memory with a caller row or with another row of the result; " else "") ++
         (match bad.head? with | some gw => s!"first bad combo got `{gw.1}` want `{gw.2}`" | none => s!"want {want}")
